@@ -204,7 +204,16 @@ func readable(c Case) map[string]string {
 	return out
 }
 
+// childModes: re-executions of this binary as a child process (corr child <mode> args…)
+var childModes = map[string]func(args []string) int{}
+
 func main() {
+	if len(os.Args) > 2 && os.Args[1] == "child" {
+		if f, ok := childModes[os.Args[2]]; ok {
+			os.Exit(f(os.Args[3:]))
+		}
+		os.Exit(97)
+	}
 	var (
 		streamName = flag.String("stream", "", "stream name")
 		tier       = flag.String("tier", "quick", "quick|thorough")
